@@ -475,6 +475,18 @@ def main_check(prop, plan, tier, seed, level_text='', extra_assumptions=None, re
     exit_code = 0
     try:
         queries = plan(ctx)
+        # exclusions are applied only for findings that are still recorded as 'known'; a 'fixed' entry suppresses nothing,
+        # and its confirmation query is not needed any more (the main query now covers the formerly excluded case)
+        kf_status = {k.get('id'): k.get('status') for k in load_known(prop)}
+        kept = []
+        for q in queries:
+            if q.known:
+                ks = q.known if isinstance(q.known, (list, tuple)) else [q.known]
+                q.known = [k for k in ks if kf_status.get(k) == 'known']
+            if q.expect_fail and kf_status.get(q.expect_fail) == 'fixed':
+                continue
+            kept.append(q)
+        queries = kept
         names = [q.name for q in queries]
         assert len(set(names)) == len(names), 'duplicate query names'
         cache, lock = {}, threading.Lock()
